@@ -559,3 +559,12 @@ package sam
 //@   before send#4: assert [block] samLineGroup.idx == len(sent(chnl)) && len(samLineGroup.records) >= 1 && forall(r, 0, len(samLineGroup.records), samLineGroup.records[r].Name == previous) && rec.Name != previous
 //@   ensures [c18.reader] implies(len(sent(cHeader)) == 0, len(sent(cerr)) >= 1 && len(sent(cdone)) == 0 && len(sent(chnl)) == 0)
 //@   ensures [idx] forall(t, 0, len(sent(chnl)), sent(chnl)[t].idx == t && len(sent(chnl)[t].records) >= 1)
+
+//@ # C18: validation prefixes of the entry points (statements before the first goroutine)
+//@ func ToPairAlign prefix
+//@   modifies everything
+//@   after if#2: assert [c18.oneref] len(refs) == 1
+//@   after if#3: assert [c18.window] 1 <= trimStart && trimStart <= trimEnd && trimEnd <= len(refSeq)
+//@ func Variants prefix
+//@   modifies everything
+//@   after if#3: assert [c18.oneref] len(refs) == 1
